@@ -453,15 +453,6 @@ fn small_ops() -> Vec<Op> {
     ops
 }
 
-/// Entry point of the libFuzzer target `pbt_c04` (fuzz/fuzz_targets/pbt_c04.rs includes this file as a module).
-#[allow(dead_code)]
-pub fn fuzz_one(data: &[u8]) -> Vec<Failure> {
-    thread_local! {
-        static S: (BoxedStrategy<<Random as Part>::Case>, std::collections::HashSet<String>) = (Random.strategy(Tier::Thorough), open_known_sigs_of("C04"));
-    }
-    S.with(|(st, known)| kvh::engine::fuzz_one(&Random, st, data, known))
-}
-
 fn main() {
     let mut s = Session::start(
         "C04",
@@ -490,7 +481,5 @@ fn main() {
     });
     s.run_enum(&Exhaustive, iter, true);
     s.run(&Random);
-    // coverage-guided search over the same strategy and oracle (libFuzzer drives the random stream): thorough tier
-    s.fuzz_campaign(&Random, "libfuzzer:random", "pbt_c04", 3_000, 8, 8192);
     std::process::exit(s.finish());
 }
